@@ -696,3 +696,69 @@ func ruleOptionalDeref(c *Ctx) {
 	}
 	c.census("N-NIL", "dereferences of optional parts of a posting", n, 10)
 }
+
+// ruleCrossIndex (U-XSTR): a byte position obtained by ranging over one string is only meaningful in that string;
+// using it (or an offset of it) to index or slice a *different* string is in bounds only by coincidence (case
+// mapping, trimming and replacement change byte lengths) - an index out of range panics, and there is no recover.
+func ruleCrossIndex(c *Ctx) {
+	n, nRange := 0, 0
+	for _, f := range c.P.ModuleFuncs() {
+		// positions delivered by `for pos, r := range s`
+		origin := map[ssa.Value]ssa.Value{} // position value -> the string ranged over
+		for _, b := range f.Blocks {
+			for _, ins := range b.Instrs {
+				ex, ok := ins.(*ssa.Extract)
+				if !ok || ex.Index != 1 {
+					continue
+				}
+				nx, ok := ex.Tuple.(*ssa.Next)
+				if !ok || !nx.IsString {
+					continue
+				}
+				if rg, ok := nx.Iter.(*ssa.Range); ok {
+					origin[ex] = rg.X
+					nRange++
+				}
+			}
+		}
+		if len(origin) == 0 {
+			continue
+		}
+		for _, b := range f.Blocks {
+			for _, ins := range b.Instrs {
+				var str, idx ssa.Value
+				switch x := ins.(type) {
+				case *ssa.Lookup:
+					if bt, ok := x.X.Type().Underlying().(*types.Basic); ok && bt.Info()&types.IsString != 0 {
+						str, idx = x.X, x.Index
+					}
+				case *ssa.Slice:
+					if bt, ok := x.X.Type().Underlying().(*types.Basic); ok && bt.Info()&types.IsString != 0 {
+						str = x.X
+						if x.Low != nil {
+							idx = x.Low
+						} else {
+							idx = x.High
+						}
+					}
+				}
+				if str == nil || idx == nil {
+					continue
+				}
+				for v := range backSlice(idx) {
+					src, ok := origin[v]
+					if !ok {
+						continue
+					}
+					n++
+					same := src == str || sameLoad(src, str)
+					c.check(same, "U-XSTR", funcName(f), "range position used in the string it came from", ins.Pos(),
+						"the indexed string is the one the position was obtained from",
+						"a byte position obtained by ranging over one string indexes a different string: the two can differ in length (case mapping of invalid UTF-8 or of letters whose other case has another width), so the index can be out of range and the server panics")
+				}
+			}
+		}
+	}
+	c.census("U-XSTR", "string range loops that deliver a position", nRange, 1)
+	c.note("U-XSTR: %d uses of a range position as a string index", n)
+}
